@@ -277,10 +277,20 @@ def run(tier, seed, t0):
                                   replay_spec={'kind': 'line', 'year': year, 'line': lk['line'], 'inputs': wit.get('inputs', {}), 'values': wit.get('values', {})}))
             functions.update(l for l, _, _ in nilines)
     obs.extend(oblig.run_tasks([Task(f'C09/{y}/amount', amount_gates, y) for y in extract.YEARS]))
+    # the solver's half of "never solves": a line that reported not-implemented stays recorded (also across a further solve() on the same
+    # solver), it is recorded by the attempt that saw it, and a solve that returns True has nothing recorded
+    from . import solver_props as sp
+    from . import solver_units as su
+    solver_part = []
+    for o in oblig.run_tasks([Task('unit/solve', sp.unit_runner, 'solve', weight=10), Task('unit/_attempt_field', sp.unit_runner, '_attempt_field', weight=2)]):
+        if o.id.startswith('SOLVER/') and any(k in o.id for k in ('unimplemented-only-grows', 'unimplemented-lines-are', 'success-means-nothing-unimplemented', 'recorded-unimplemented-iff', 'done-flag-set', 'subset')):
+            solver_part.append(o)
+    obs.extend(su.finish_with_refutation('C09', solver_part, lambda o: True, seed, tier))
+    functions.update(['solver.py:Solver.solve', 'solver.py:Solver._attempt_field'])
     return oblig.finish('C09', tier, seed, obs, t0, functions=sorted(functions),
                         trusted_base=base.TRUSTED + ['contracts/gates.json (frozen gate table and companion table)'],
                         assumptions=base.assumptions('A-PY', 'A-READ', 'A-SIGMA') + [
-                            'C01 (a demanded line that reports not-implemented makes the solve fail) is a separate obligation',
+                            'the solver side (a recorded refusal is never forgotten; success means none recorded) is included as C09/solver/*; the rest of C01 is a separate property',
                             'amount gates are the ones listed in contracts/amount_gates.py (Schedule B rows, HSA over-contribution, Form 1116 limit)'],
                         checker_cmd='./check C09', min_obligations=150)
 
